@@ -660,10 +660,18 @@ func VerifC12_RoundTripClient() {
 			verifapi.Assert(m.Offer == offer && m.NAT == nat, "client poll request: every field is the corresponding argument")
 		}
 	}
+	// another client's poll is encoded before this one is decoded (the broker's legacy shim and
+	// a client with several rendezvous in flight do that): an encoding stays what it was
+	_, err = (&ClientPollRequest{Offer: "other-offer", NAT: "unknown", Fingerprint: "2B280B23E1107BB62ABFC40DDCC8824814F80A72"}).EncodeClientPollRequest()
+	verifapi.Assert(err == nil, "client poll request encodes")
+	verifapi.Assert(len(data) >= 4 && string(data[:4]) == "1.0\n", "an encoded client poll request is not changed by a later encoding")
 	r2, err := DecodeClientPollRequest(data)
 	verifapi.Cover("round trip: client poll request")
-	verifapi.Assert(err == nil && r2 != nil, "round trip: client poll request decodes")
-	verifapi.Assert(r2.Offer == offer, "round trip: offer")
+	same := false
+	if err == nil && r2 != nil {
+		same = r2.Offer == offer
+	}
+	verifapi.Assert(same, "round trip: client poll request decodes to the offer that was encoded")
 	if nat == "" {
 		verifapi.Assert(r2.NAT == "unknown", "round trip: client missing NAT means unknown")
 	} else {
@@ -678,6 +686,8 @@ func VerifC12_RoundTripClient() {
 	resp := &ClientPollResponse{Answer: verifASCII("answer", 3), Error: verifASCII("error", 3)}
 	verifapi.Assume(resp.Answer != "" || resp.Error != "")
 	rd, err := resp.EncodePollResponse()
+	verifapi.Assert(err == nil, "client poll response encodes")
+	_, err = (&ClientPollResponse{Answer: "other-answer"}).EncodePollResponse()
 	verifapi.Assert(err == nil, "client poll response encodes")
 	p2, err := DecodeClientPollResponse(rd)
 	verifapi.Cover("round trip: client poll response")
